@@ -48,21 +48,21 @@ func (c *stCustom) UnmarshalJSON(b []byte) error {
 }
 
 type stDoc struct {
-	A     int64             `json:"a"`
-	U     uint64            `json:"u"`
-	B     bool              `json:"b"`
-	S     string            `json:"s"`
-	F     float64           `json:"f"`
-	P     *stInner          `json:"p"`
-	Nil   *stInner          `json:"nil"`
-	L     []stInner         `json:"l"`
-	M     map[string]int16  `json:"m"`
-	I     interface{}       `json:"i"`
-	Skip  int               `json:"-"`
-	Omit  int               `json:"omit,omitempty"`
-	T     stText            `json:"t"`
-	C     []stCustom        `json:"c"`
-	Bytes []byte            `json:"bytes"`
+	A     int64            `json:"a"`
+	U     uint64           `json:"u"`
+	B     bool             `json:"b"`
+	S     string           `json:"s"`
+	F     float64          `json:"f"`
+	P     *stInner         `json:"p"`
+	Nil   *stInner         `json:"nil"`
+	L     []stInner        `json:"l"`
+	M     map[string]int16 `json:"m"`
+	I     interface{}      `json:"i"`
+	Skip  int              `json:"-"`
+	Omit  int              `json:"omit,omitempty"`
+	T     stText           `json:"t"`
+	C     []stCustom       `json:"c"`
+	Bytes []byte           `json:"bytes"`
 	stEmb
 	lower int
 }
